@@ -166,18 +166,6 @@ theorem wrong_message_rejected (t : ℕ) (p : F[X]) (hp : p.degree < t) (S : Fin
 
 section Examples
 
-/-- 2-of-3 split of the secret 3 with polynomial `3 + 2X`: shares 5, 7, 9. -/
-private noncomputable def pEx : ℚ[X] := C 3 + C 2 * X
-
-private theorem pEx_deg : pEx.degree < (2 : ℕ) := by
-  unfold pEx
-  refine lt_of_le_of_lt (degree_add_le _ _) ?_
-  refine max_lt (lt_of_le_of_lt degree_C_le (by norm_num)) ?_
-  refine lt_of_le_of_lt (degree_C_mul_X_le _) (by norm_num)
-
-private theorem sEx_ok (S : Finset ℕ) (h : ∀ k ∈ S, 0 < k) : IdsDistinct ℚ S ∧ IdsNonzero ℚ S :=
-  ⟨idsDistinct_of_charZero S, idsNonzero_of_charZero S h⟩
-
 example : split pEx 3 = [(1, 5), (2, 7), (3, 9)] := by
   simp [split, share, pEx, List.range_succ]; norm_num
 
